@@ -20,6 +20,7 @@ package main
 import (
 	"fmt"
 	"math/big"
+	"runtime"
 	"sync"
 
 	"github.com/oasisprotocol/curve25519-voi/internal/field"
@@ -27,7 +28,7 @@ import (
 	"github.com/oasisprotocol/curve25519-voi/internal/verif/ref"
 )
 
-const nl = field.VerifLimbCount
+const nl = field.VerifC04LimbCount
 
 var (
 	is64   = nl == 5
@@ -94,7 +95,7 @@ type scratch struct {
 	t, u, r *big.Int
 	h, h2   *big.Int
 	words   [8]big.Word
-	lb      [nl]uint64
+	lb, lb2 [nl]uint64
 	be      [32]byte
 	got     [32]byte
 }
@@ -184,7 +185,7 @@ type el struct {
 func mkEl(l []uint64) *el {
 	e := &el{}
 	copy(e.l[:], l)
-	e.fe = field.VerifFromLimbs(l)
+	e.fe = field.VerifC04FromLimbs(l)
 	s := pool.Get().(*scratch)
 	e.v = new(big.Int).Mod(s.limbInt(l, new(big.Int)), P)
 	pool.Put(s)
@@ -292,7 +293,7 @@ func (c chk) val(key string, fe *field.Element, want *big.Int, b bound, cas func
 			break
 		}
 	}
-	field.VerifLimbsInto(fe, &s.lb)
+	field.VerifC04LimbsInto(fe, &s.lb)
 	l := s.lb[:]
 	lv := s.modP(s.limbInt(l, s.r))
 	switch {
@@ -317,14 +318,47 @@ func (c chk) val(key string, fe *field.Element, want *big.Int, b bound, cas func
 
 func main() { mc.Main("C04", run) }
 
+// The portable 64-bit loops are reached through accessors registered by a hook file of their own
+// (hooks/internal/field/verif_export_c04_generic_u64.go): if feMulGeneric/fePow2kGeneric are renamed, only that
+// file is dropped by the driver and only the "-generic" classes are capped.
+var (
+	mulGeneric   func(out, a, b *field.Element)
+	pow2kGeneric func(out, a *field.Element, k uint)
+)
+
+// phase runs one group of sub-spaces.  Whatever the tree under test does while a group is being prepared (a panic in
+// SetBytes while the alphabets are built, say) is a violation attributed to that group, never a harness failure.
+func phase(c *mc.Ctx, name string, f func(*mc.Ctx)) {
+	defer func() {
+		if r := recover(); r != nil {
+			buf := make([]byte, 2048)
+			buf = buf[:runtime.Stack(buf, false)]
+			c.Seq("setup-panic/"+name, 1, func(w *mc.W, _ int) {
+				w.Eval("setup-panic", true)
+				w.Fail("panic/setup-"+name, fmt.Sprintf("the library panicked while the %s inputs were being prepared: %v\n%s", name, r, buf), nil)
+			})
+		}
+	}()
+	f(c)
+}
+
 func run(c *mc.Ctx) {
-	c.Rep.Extra["backend"] = map[string]interface{}{"limbs": nl, "portable_loop_hook": field.VerifHasGeneric && is64}
+	mulGeneric, _ = field.VerifC04Reg["feMulGeneric"].(func(out, a, b *field.Element))
+	pow2kGeneric, _ = field.VerifC04Reg["fePow2kGeneric"].(func(out, a *field.Element, k uint))
+	if is64 && (mulGeneric == nil || pow2kGeneric == nil) {
+		c.Cap("the portable 64-bit loops (feMulGeneric / fePow2kGeneric) are not reachable against this tree (their accessor file no longer compiles and was dropped): the -generic classes are skipped")
+	}
+	c.Rep.Extra["backend"] = map[string]interface{}{"limbs": nl, "portable_loop_hook": is64 && mulGeneric != nil && pow2kGeneric != nil}
 	selfCheck(c)
-	corners(c)
-	constantSeams(c)
-	residueClasses(c)
-	values(c)
-	vectorLanes(c)
+	phase(c, "corners", corners)
+	phase(c, "single-limb", singleLimbProducts)
+	phase(c, "constant-seams", constantSeams)
+	phase(c, "residue-classes", residueClasses)
+	phase(c, "values", values)
+	phase(c, "vector-lanes", vectorLanes)
+	if c.Rep.NViolations > 0 {
+		return // the vacuity guards protect a "held" verdict only; a violation is reported as such
+	}
 	c.Require("mul", 1000000)
 	c.Require("sub", 1000000)
 	c.Require("square", 5000)
@@ -338,7 +372,109 @@ func run(c *mc.Ctx) {
 	c.Require("wide/bit255", 50)
 	c.Require("wide/bit511", 50)
 	c.Require("batchinvert/with-zero", 100)
+	c.Require("batchinvert/zero-at-index-0", 100)
+	c.Require("alias", 100000)
 }
+
+// sameAs reports whether x holds the same element as want: identical limbs (what an operation that merely aliases its
+// receiver must produce) or, failing that, the same value.
+func (c chk) sameAs(key string, x, want *field.Element, cas func() interface{}) {
+	s := c.s
+	field.VerifC04LimbsInto(x, &s.lb)
+	field.VerifC04LimbsInto(want, &s.lb2)
+	if s.lb == s.lb2 {
+		return
+	}
+	if x.Equal(want) != 1 {
+		c.w.Fail(key, fmt.Sprintf("%s: the aliased call gives limbs %x, the call with distinct objects gives %x", key, s.lb, s.lb2), cas())
+	}
+}
+
+// ---------------------------------------------------------------------------
+// single-limb products (T9): exactly one non-zero limb in each operand, at every pair of positions, with values at the
+// limb seams, at the word seams (2^32-1 and 2^32+1 multiply to 2^64-1: a low product word of all ones, so the next
+// addition into it carries; 2^16+-1 likewise for the 32-bit backend) and at the tops of the headroom.  One partial
+// product - with its 19-fold for wrapped columns and its doubling for odd*odd limbs - is exercised at a time, so that a
+// wrong coefficient or a carry lost in one column cannot be compensated by another term.
+func singleLimbProducts(c *mc.Ctx) {
+	var vals [2][]uint64 // by limb parity
+	if is64 {
+		v := []uint64{1, 19, 1<<32 - 1, 1<<32 + 1, 1<<51 - 1, 1 << 51, 1<<52 - 1, 1<<54 - 1}
+		vals = [2][]uint64{v, v}
+	} else {
+		vals = [2][]uint64{
+			{1, 19, 1<<16 - 1, 1<<16 + 1, 1<<26 - 1, 1 << 26, 3<<26 - 1, docMaxEven},
+			{1, 19, 1<<16 - 1, 1<<16 + 1, 1<<25 - 1, 1 << 25, 3<<25 - 1, docMaxOdd},
+		}
+	}
+	var es []*el
+	for pos := 0; pos < nl; pos++ {
+		for _, v := range vals[pos&1] {
+			l := make([]uint64, nl)
+			l[pos] = v
+			es = append(es, mkEl(l))
+		}
+	}
+	n := len(es)
+	c.Rep.Extra["single_limb_elements"] = n
+	c.Par("single-limb-products", n*n, func(w *mc.W, i int) {
+		s := pool.Get().(*scratch)
+		binaryOps(chk{w, s}, es[i/n], es[i%n], i)
+		pool.Put(s)
+	})
+	c.Par("single-limb-unary", n, func(w *mc.W, i int) {
+		s := pool.Get().(*scratch)
+		heavyUnary(chk{w, s}, es[i], es[(i+1)%n])
+		pool.Put(s)
+	})
+	// word seams in every limb at once: limbs from {2^h-1, 2^h, 2^h+1}, h = half the accumulator word (32, resp. 16 bits).
+	// Partial products are then exactly 2^w-1 (all ones), 2^w and 2^w+2^(h+1)+1, their 19- and 38-folds end in ...ed / ...da,
+	// and the column sums land exactly on, one below and one above multiples of 2^w: "words that are exactly 0xffff... with
+	// a carry in" for every ADD/ADC pair of the multiplication and squaring ladders and for the 19-/38-/121666-folds.
+	h := uint(32)
+	if !is64 {
+		h = 16
+	}
+	hv := []uint64{1<<h - 1, 1 << h, 1<<h + 1}
+	ws := cset{"{2^h-1, 2^h, 2^h+1}", hv, hv}
+	if is64 {
+		we := ws.all() // 3^5 = 243
+		c.Rep.Extra["word_seam_elements"] = len(we)
+		c.Par("word-seam-binary", len(we)*len(we), func(w *mc.W, i int) {
+			s := pool.Get().(*scratch)
+			binaryOps(chk{w, s}, we[i/len(we)], we[i%len(we)], i)
+			pool.Put(s)
+		})
+		unaryOps(c, "word-seam-unary", we)
+	} else {
+		// 3^10 elements: single-step routines on all of them, products against the three uniform vectors in both orders
+		nw := ws.size()
+		u := ws.uniform()
+		c.Rep.Extra["word_seam_elements"] = nw
+		c.Par("word-seam-binary", nw*len(u)*2, func(w *mc.W, i int) {
+			s := pool.Get().(*scratch)
+			e, v := mkEl(ws.limbs(i/(2*len(u)))), u[(i/2)%len(u)]
+			if i&1 == 0 {
+				binaryOps(chk{w, s}, e, v, i)
+			} else {
+				binaryOps(chk{w, s}, v, e, i)
+			}
+			pool.Put(s)
+		})
+		c.Par("word-seam-unary", nw, func(w *mc.W, i int) {
+			s := pool.Get().(*scratch)
+			cheapUnary(chk{w, s}, mkEl(ws.limbs(i)))
+			pool.Put(s)
+		})
+	}
+}
+
+// The largest limbs the 32-bit multiplication documents as admissible: x[i] < 2^(26+b) / 2^(25+b) with b < 1.75 - one
+// step below the seam of the 32-bit pre-multiplication 19*y (which wraps at y >= ceil(2^32/19) = 226050911).
+const (
+	docMaxEven = 225726411 // floor(2^27.75) - 1
+	docMaxOdd  = 112863205 // floor(2^26.75) - 1
+)
 
 // ---------------------------------------------------------------------------
 // constant-multiplier seams (64-bit backends): Mul121666 forms a_i*121666 as a 128-bit product and adds the
@@ -399,7 +535,8 @@ func constantSeams(c *mc.Ctx) {
 // never reduces): x + Neg(x), (a-a)+(b-b), x + x - 2x.  Predicates and encoders must see through the representation.
 // (Added after the seeded change C04-r2-1 - an IsZero that compares raw limbs with 0 and with p only - passed the
 // limb corners, none of which is a non-trivial representation of zero.)
-func residueClasses(c *mc.Ctx) {
+// residueElements: the representations v + k*p described above, inside the documented input headroom.
+func residueElements() []*el {
 	var pl [nl]uint64
 	for i := 0; i < nl; i++ {
 		pl[i] = 1<<radix[i] - 1
@@ -466,18 +603,40 @@ func residueClasses(c *mc.Ctx) {
 			in = append(in, e)
 		}
 	}
-	in = dedup(in)
+	return dedup(in)
+}
+
+func residueClasses(c *mc.Ctx) {
+	in := residueElements()
 	c.Rep.Extra["residue_class_elements"] = len(in)
+	// every single-operand routine incl. Invert and SqrtRatioI (unreduced zeros and small values as u and as v, T5)
 	c.Par("residue-classes", len(in), func(w *mc.W, i int) {
 		s := pool.Get().(*scratch)
 		defer pool.Put(s)
-		cheapUnary(chk{w, s}, in[i])
+		heavyUnary(chk{w, s}, in[i], in[(i*7+3)%len(in)])
+	})
+	// Equal / binary arithmetic across representations of the same and of neighbouring values
+	c.Par("residue-pairs", len(in)*len(in), func(w *mc.W, i int) {
+		s := pool.Get().(*scratch)
+		defer pool.Put(s)
+		a, b := in[i/len(in)], in[i%len(in)]
+		w.Eval("equal-representations", a.v.Cmp(b.v) == 0)
+		if got, want := a.fe.Equal(&b.fe) == 1, a.v.Cmp(b.v) == 0; got != want {
+			w.Fail("Equal", fmt.Sprintf("Equal(limbs %s, limbs %s) = %v, values %x and %x", a.hex(), b.hex(), got, a.v, b.v), map[string]string{"a_limbs": a.hex(), "b_limbs": b.hex()})
+		}
+		binaryOps(chk{w, s}, a, b, i)
 	})
 	// library-produced unreduced forms
 	full := fullCorners()
 	// x is taken from the weakly reduced corners only ({0, 1, 2^r-1, 2^r}), so that x + Neg(x) (limbs < 2^(r+1)+small)
 	// stays inside the documented input headroom of every routine it is fed to
-	cs := dedup(sub(full, "reduced corners", 0, 1, 2, 3).all())
+	var cs []*el
+	if is64 || c.Thorough {
+		cs = dedup(sub(full, "reduced corners", 0, 1, 2, 3).all()) // 4^5 = 1 024, resp. 4^10 = 1 048 576
+	} else {
+		// 32-bit backend, quick tier: the two 2-corner halves (2 x 2^10) instead of all 4^10
+		cs = dedup(append(sub(full, "{0, 2^r-1}", 0, 2).all(), sub(full, "{1, 2^r}", 1, 3).all()...))
+	}
 	c.Rep.Extra["library_zero_forms_from"] = len(cs)
 	c.Par("library-zero-forms", len(cs), func(w *mc.W, i int) {
 		s := pool.Get().(*scratch)
@@ -488,7 +647,7 @@ func residueClasses(c *mc.Ctx) {
 		var n, z, t field.Element
 		n.Neg(&x.fe)
 		z.Add(&x.fe, &n) // x + (-x): an unreduced zero
-		zl := field.VerifLimbs(&z)
+		zl := field.VerifC04Limbs(&z)
 		ze := mkEl(zl)
 		if ze.v.Sign() != 0 {
 			w.Fail("Add/Neg", "x + Neg(x) is not zero", cas())
@@ -543,6 +702,7 @@ func corners(c *mc.Ctx) {
 		unary = full.all() // 6^5 = 7776
 	} else {
 		a3 := sub(full, "A3", 0, 2, 4).all() // 3^10
+		a3 = dedup(append(a3, cset{"docmax", []uint64{0, docMaxEven}, []uint64{0, docMaxOdd}}.all()...))
 		b3 := dedup(append(append([]*el{}, a3...), sub(full, "B3", 1, 3, 4).all()...))[len(a3):]
 		if c.Thorough {
 			unary = append(a3, b3...)
@@ -603,7 +763,9 @@ func corners(c *mc.Ctx) {
 		sm2 := sub(full, "SM2", 2, 4).all()
 		a3 := sub(full, "A3", 0, 2, 4).all()
 		u5 := full.uniform()
+		dm := cset{"{0, 2^27.75-1 | 0, 2^26.75-1}", []uint64{0, docMaxEven}, []uint64{0, docMaxOdd}}.all()
 		bins = append(bins,
+			bin{"corner-binary/docmax", dm, dm},
 			bin{"corner-binary/minmax", m2, m2},
 			bin{"corner-binary/seam-a", s2, sm2},
 			bin{"corner-binary/seam-b", sm2, s2},
@@ -640,34 +802,48 @@ func dedup(in []*el) []*el {
 	return out
 }
 
-// binaryOps checks Mul (asm or native), the portable Mul, Sub, Add on (a, b).
+// binaryOps checks Mul (asm or native), the portable Mul, Sub, Add on (a, b), each also with the receiver aliasing
+// the first and the second operand (T1; the library itself calls them that way everywhere).
 func binaryOps(c chk, a, b *el, i int) {
 	s := c.s
 	nt := a.unred || b.unred
 	cas := func() interface{} { return map[string]string{"a_limbs": a.hex(), "b_limbs": b.hex()} }
-	var out field.Element
+	// classes are counted before the library is called: they describe the enumerated space, not its behaviour
+	c.w.Eval("mul", nt)
+	c.w.Eval("sub", nt)
+	c.w.Eval("add", nt)
+	c.w.EvalN("alias", 2, nt)
+	if mulGeneric != nil {
+		c.w.Eval("mul-generic", nt)
+	}
+	var out, x field.Element
+	// the aliased forms of one of the three operations per case, in rotation: each form still sweeps a third of every product
+	rot := i % 3
 
 	s.t.Mul(a.v, b.v)
 	s.modP(s.t)
 	out.Mul(&a.fe, &b.fe)
-	c.w.Eval("mul", nt)
 	c.val("Mul", &out, s.t, bReduced, cas)
-	if is64 && field.VerifHasGeneric {
+	if mulGeneric != nil {
 		var g field.Element
-		field.VerifMulGeneric(&g, &a.fe, &b.fe)
-		c.w.Eval("mul-generic", nt)
+		mulGeneric(&g, &a.fe, &b.fe)
 		c.val("feMulGeneric", &g, s.t, bReduced, cas)
+		if rot == 0 {
+			x = a.fe
+			mulGeneric(&x, &x, &b.fe)
+			c.sameAs("feMulGeneric/alias(fe,fe,b)", &x, &g, cas)
+			x = b.fe
+			mulGeneric(&x, &a.fe, &x)
+			c.sameAs("feMulGeneric/alias(fe,a,fe)", &x, &g, cas)
+		}
 	}
-	// aliasing as used throughout the library: receiver is one of the operands
-	x := a.fe
-	if i&1 == 0 {
+	if rot == 0 {
+		x = a.fe
 		x.Mul(&x, &b.fe)
-	} else {
+		c.sameAs("Mul/alias(fe,b)", &x, &out, cas)
 		x = b.fe
 		x.Mul(&a.fe, &x)
-	}
-	if x.Equal(&out) != 1 {
-		c.w.Fail("Mul/alias", "x.Mul(x, b) or x.Mul(a, x) differs from Mul(a, b)", cas())
+		c.sameAs("Mul/alias(a,fe)", &x, &out, cas)
 	}
 
 	s.u.Sub(a.v, b.v)
@@ -675,15 +851,21 @@ func binaryOps(c chk, a, b *el, i int) {
 		s.u.Add(s.u, P)
 	}
 	out.Sub(&a.fe, &b.fe)
-	c.w.Eval("sub", nt)
 	c.val("Sub", &out, s.u, bReduced, cas)
+	if rot == 1 {
+		x = a.fe
+		x.Sub(&x, &b.fe)
+		c.sameAs("Sub/alias(fe,b)", &x, &out, cas)
+		x = b.fe
+		x.Sub(&a.fe, &x)
+		c.sameAs("Sub/alias(a,fe)", &x, &out, cas)
+	}
 
 	s.u.Add(a.v, b.v)
 	if s.u.Cmp(P) >= 0 {
 		s.u.Sub(s.u, P)
 	}
 	out.Add(&a.fe, &b.fe)
-	c.w.Eval("add", nt)
 	if c.val("Add", &out, s.u, bNone, cas) {
 		// Add is documented as a plain limb-wise sum (no reduction): the limbs must not have wrapped.
 		l := s.lb[:] // filled by val with the limbs of out
@@ -694,75 +876,100 @@ func binaryOps(c chk, a, b *el, i int) {
 			}
 		}
 	}
+	if rot == 2 {
+		x = a.fe
+		x.Add(&x, &b.fe)
+		c.sameAs("Add/alias(fe,b)", &x, &out, cas)
+		x = b.fe
+		x.Add(&a.fe, &x)
+		c.sameAs("Add/alias(a,fe)", &x, &out, cas)
+	}
 	if i%100003 == 0 {
-		c.w.Sample(map[string]string{"op": "Mul/Sub/Add", "a_limbs": a.hex(), "b_limbs": b.hex()})
+		c.w.Sample(map[string]string{"op": "Mul/Sub/Add (+ aliased receivers)", "a_limbs": a.hex(), "b_limbs": b.hex()})
 	}
 }
 
-// cheapUnary: single-step routines on one corner element.
+// cheapUnary: single-step routines on one element, with every aliasing form a method with a receiver admits
+// (fe.Op(fe), fe.Op(fe, fe), x.Swap(x), ...).
 func cheapUnary(c chk, a *el) {
 	s := c.s
 	cas := func() interface{} { return map[string]string{"a_limbs": a.hex()} }
-	var out field.Element
+	for _, cl := range []string{"tobytes", "square", "square2", "mul121666", "neg", "predicates", "condnegate"} {
+		c.w.Eval(cl, a.unred)
+	}
+	c.w.EvalN("alias", 12, a.unred)
+	var out, x field.Element
 
 	// ToBytes is canonical (< p) on the raw input representation itself.
-	c.w.Eval("tobytes", a.unred)
 	c.val("ToBytes", &a.fe, a.v, bNone, cas)
 
 	s.t.Mul(a.v, a.v)
 	s.modP(s.t)
 	out.Square(&a.fe)
-	c.w.Eval("square", a.unred)
 	c.val("Square", &out, s.t, bReduced, cas)
-	x := a.fe
+	x = a.fe
 	x.Square(&x)
-	if x.Equal(&out) != 1 {
-		c.w.Fail("Square/alias", "x.Square(x) differs from Square(a)", cas())
+	c.sameAs("Square/alias(fe,fe)", &x, &out, cas)
+	// Mul with all three the same object, and with both operands the same object
+	x = a.fe
+	x.Mul(&x, &x)
+	c.val("Mul/alias(fe,fe,fe)", &x, s.t, bReduced, cas)
+	x.Mul(&a.fe, &a.fe)
+	c.val("Mul/alias(a,a)", &x, s.t, bReduced, cas)
+	if mulGeneric != nil {
+		x = a.fe
+		mulGeneric(&x, &x, &x)
+		c.val("feMulGeneric/alias(fe,fe,fe)", &x, s.t, bReduced, cas)
 	}
 
 	s.u.Lsh(s.t, 1)
 	norm(s.u)
 	out.Square2(&a.fe)
-	c.w.Eval("square2", a.unred)
 	c.val("Square2", &out, s.u, bDouble, cas)
+	x = a.fe
+	x.Square2(&x)
+	c.sameAs("Square2/alias(fe,fe)", &x, &out, cas)
 
 	s.u.Mul(a.v, big121666)
 	s.modP(s.u)
 	out.Mul121666(&a.fe)
-	c.w.Eval("mul121666", a.unred)
 	c.val("Mul121666", &out, s.u, bReduced, cas)
+	x = a.fe
+	x.Mul121666(&x)
+	c.sameAs("Mul121666/alias(fe,fe)", &x, &out, cas)
 
 	s.u.Neg(a.v)
 	norm(s.u)
 	out.Neg(&a.fe)
-	c.w.Eval("neg", a.unred)
 	c.val("Neg", &out, s.u, bReduced, cas)
 	x = a.fe
 	x.Neg(&x)
-	if x.Equal(&out) != 1 {
-		c.w.Fail("Neg/alias", "x.Neg(x) differs from Neg(a)", cas())
-	}
+	c.sameAs("Neg/alias(fe,fe)", &x, &out, cas)
 
 	// x - x = 0, x + x = 2x with full aliasing
 	x = a.fe
 	x.Sub(&x, &x)
-	c.val("Sub/alias", &x, zero, bReduced, cas)
+	c.val("Sub/alias(fe,fe,fe)", &x, zero, bReduced, cas)
 	x = a.fe
 	x.Add(&x, &x)
 	s.u.Lsh(a.v, 1)
 	norm(s.u)
-	c.val("Add/alias", &x, s.u, bNone, cas)
+	c.val("Add/alias(fe,fe,fe)", &x, s.u, bNone, cas)
 
-	// predicates
+	// predicates; Equal with itself and with a copy
 	if got, want := a.fe.IsZero() == 1, a.v.Sign() == 0; got != want {
 		c.w.Fail("IsZero", fmt.Sprintf("IsZero(limbs %s)=%v, value is %x", a.hex(), got, a.v), cas())
 	}
 	if got, want := a.fe.IsNegative() == 1, a.v.Bit(0) == 1; got != want {
 		c.w.Fail("IsNegative", fmt.Sprintf("IsNegative(limbs %s)=%v, value is %x", a.hex(), got, a.v), cas())
 	}
-	c.w.Eval("predicates", a.unred)
+	x = a.fe
+	if x.Equal(&x) != 1 || x.Equal(&a.fe) != 1 {
+		c.w.Fail("Equal/alias(x,x)", "an element does not compare equal to itself", cas())
+	}
+	c.sameAs("Equal/modifies-operand", &x, &a.fe, cas)
 
-	// conditional negate, complete choice domain
+	// conditional operations, complete choice domain, operands all the same object: the element must not change
 	for ch := 0; ch <= 1; ch++ {
 		x = a.fe
 		x.ConditionalNegate(ch)
@@ -772,14 +979,24 @@ func cheapUnary(c chk, a *el) {
 			norm(s.u)
 		}
 		c.val("ConditionalNegate", &x, s.u, bNone, cas)
+		x = a.fe
+		x.ConditionalSwap(&x, ch)
+		c.sameAs("ConditionalSwap/alias(x,x)", &x, &a.fe, cas)
+		x.ConditionalAssign(&x, ch)
+		c.sameAs("ConditionalAssign/alias(x,x)", &x, &a.fe, cas)
+		x.ConditionalSelect(&x, &x, ch)
+		c.sameAs("ConditionalSelect/alias(x,x,x)", &x, &a.fe, cas)
 	}
-	c.w.Eval("condnegate", a.unred)
+	x = a.fe
+	x.Set(&x)
+	c.sameAs("Set/alias(x,x)", &x, &a.fe, cas)
 }
 
 var (
 	big121666 = big.NewInt(121666)
 	zero      = big.NewInt(0)
 	one       = big.NewInt(1)
+	pMinus1   = new(big.Int).Sub(ref.P, big.NewInt(1))
 )
 
 // unaryOps: every single-operand routine on the given elements.
@@ -788,65 +1005,100 @@ func unaryOps(c *mc.Ctx, name string, es []*el) {
 	c.Par(name, n, func(w *mc.W, i int) {
 		s := pool.Get().(*scratch)
 		defer pool.Put(s)
-		ck := chk{w, s}
-		a := es[i]
-		cas := func() interface{} { return map[string]string{"a_limbs": a.hex()} }
-		cheapUnary(ck, a)
-
-		// Pow2k for the listed k (incremental reference), native and portable.
-		acc, tmp := new(big.Int).Set(a.v), new(big.Int)
-		done := uint(0)
-		for _, k := range pow2k {
-			for ; done < k; done++ {
-				tmp.Mul(acc, acc)
-				s.modP(tmp)
-				acc, tmp = tmp, acc
-			}
-			var out field.Element
-			out.Pow2k(&a.fe, k)
-			w.Eval("pow2k", a.unred)
-			ck.val(fmt.Sprintf("Pow2k/k=%d", k), &out, acc, bReduced, cas)
-			if is64 && field.VerifHasGeneric {
-				var g field.Element
-				field.VerifPow2kGeneric(&g, &a.fe, k)
-				w.Eval("pow2k-generic", a.unred)
-				ck.val(fmt.Sprintf("fePow2kGeneric/k=%d", k), &g, acc, bReduced, cas)
-			}
-			if k == 5 {
-				x := a.fe
-				x.Pow2k(&x, k)
-				if x.Equal(&out) != 1 {
-					w.Fail("Pow2k/alias", "x.Pow2k(x, 5) differs from Pow2k(a, 5)", cas())
-				}
-			}
-		}
-
-		// Invert on an unreduced representation: a * a^-1 = 1, 0 -> 0 (the inverse is unique).
-		var inv field.Element
-		inv.Invert(&a.fe)
-		l := field.VerifLimbs(&inv)
-		iv := s.modP(s.limbInt(l, new(big.Int)))
-		w.Eval("invert", a.unred)
-		if a.v.Sign() == 0 {
-			ck.val("Invert/zero", &inv, zero, bReduced, cas)
-		} else {
-			s.t.Mul(iv, a.v)
-			s.modP(s.t)
-			if s.t.Cmp(one) != 0 {
-				w.Fail("Invert", fmt.Sprintf("Invert(limbs %s) = %x, a*inv = %x", a.hex(), iv, s.t), cas())
-			}
-			ck.val("Invert", &inv, iv, bReduced, cas)
-		}
-
-		// SqrtRatioI with corner representations on both sides.
-		b := es[(i*31+7)%n]
-		sqrtCase(ck, &a.fe, &b.fe, a.v, b.v, func() interface{} {
-			return map[string]string{"u_limbs": a.hex(), "v_limbs": b.hex()}
-		})
+		heavyUnary(chk{w, s}, es[i], es[(i*31+7)%n])
 		if i%997 == 0 {
-			w.Sample(map[string]string{"op": "unary(Square,Square2,Pow2k,Mul121666,Neg,Invert,SqrtRatioI,ToBytes)", "a_limbs": a.hex()})
+			w.Sample(map[string]string{"op": "unary(Square,Square2,Pow2k,Mul121666,Neg,Invert,SqrtRatioI,ToBytes; aliased forms)", "a_limbs": es[i].hex()})
 		}
 	})
+}
+
+// heavyUnary: cheapUnary plus the Pow2k ladder (native and portable), Invert and SqrtRatioI(a, b), each also with the
+// receiver aliasing its operand(s).
+func heavyUnary(ck chk, a, b *el) {
+	w, s := ck.w, ck.s
+	cas := func() interface{} { return map[string]string{"a_limbs": a.hex()} }
+	w.EvalN("pow2k", int64(len(pow2k)), a.unred)
+	if pow2kGeneric != nil {
+		w.EvalN("pow2k-generic", int64(len(pow2k)), a.unred)
+	}
+	w.Eval("invert", a.unred)
+	w.EvalN("alias", int64(len(pow2k))+5, a.unred)
+	cheapUnary(ck, a)
+
+	// Pow2k for the listed k (incremental reference), native and portable.
+	acc, tmp := new(big.Int).Set(a.v), new(big.Int)
+	done := uint(0)
+	for _, k := range pow2k {
+		for ; done < k; done++ {
+			tmp.Mul(acc, acc)
+			s.modP(tmp)
+			acc, tmp = tmp, acc
+		}
+		var out field.Element
+		out.Pow2k(&a.fe, k)
+		ck.val(fmt.Sprintf("Pow2k/k=%d", k), &out, acc, bReduced, cas)
+		x := a.fe
+		x.Pow2k(&x, k)
+		ck.sameAs(fmt.Sprintf("Pow2k/alias(fe,fe)/k=%d", k), &x, &out, cas)
+		if pow2kGeneric != nil {
+			var g field.Element
+			pow2kGeneric(&g, &a.fe, k)
+			ck.val(fmt.Sprintf("fePow2kGeneric/k=%d", k), &g, acc, bReduced, cas)
+			if k <= 5 {
+				x = a.fe
+				pow2kGeneric(&x, &x, k)
+				ck.sameAs(fmt.Sprintf("fePow2kGeneric/alias(fe,fe)/k=%d", k), &x, &g, cas)
+			}
+		}
+	}
+
+	// Invert on an unreduced representation: a * a^-1 = 1, 0 -> 0 (the inverse is unique).
+	var inv field.Element
+	inv.Invert(&a.fe)
+	field.VerifC04LimbsInto(&inv, &s.lb2)
+	iv := s.modP(s.limbInt(s.lb2[:], new(big.Int)))
+	if a.v.Sign() == 0 {
+		ck.val("Invert/zero", &inv, zero, bReduced, cas)
+	} else {
+		s.t.Mul(iv, a.v)
+		s.modP(s.t)
+		if s.t.Cmp(one) != 0 {
+			w.Fail("Invert", fmt.Sprintf("Invert(limbs %s) = %x, a*inv = %x", a.hex(), iv, s.t), cas())
+		}
+		ck.val("Invert", &inv, iv, bReduced, cas)
+	}
+	x := a.fe
+	x.Invert(&x)
+	ck.sameAs("Invert/alias(fe,fe)", &x, &inv, cas)
+
+	// SqrtRatioI with the given representations on both sides, and with the receiver aliasing u, v, or both
+	cas2 := func() interface{} { return map[string]string{"u_limbs": a.hex(), "v_limbs": b.hex()} }
+	sqrtCase(ck, &a.fe, &b.fe, a.v, b.v, cas2)
+	var r field.Element
+	_, f0 := r.SqrtRatioI(&a.fe, &b.fe)
+	x = a.fe
+	_, f1 := x.SqrtRatioI(&x, &b.fe)
+	ck.sameAs("SqrtRatioI/alias(fe=u)", &x, &r, cas2)
+	x = b.fe
+	_, f2 := x.SqrtRatioI(&a.fe, &x)
+	ck.sameAs("SqrtRatioI/alias(fe=v)", &x, &r, cas2)
+	if f1 != f0 || f2 != f0 {
+		w.Fail("SqrtRatioI/alias-flag", fmt.Sprintf("SqrtRatioI flag depends on receiver aliasing: %d (distinct), %d (fe=u), %d (fe=v)", f0, f1, f2), cas2())
+	}
+	// u and v the same object: the non-negative square root of x/x = 1 - which is p-1 (the even one of +-1) - with flag 1
+	// for x != 0; (1, 0) for x = 0 (u = 0 rule)
+	wantSame := pMinus1
+	if a.v.Sign() == 0 {
+		wantSame = zero
+	}
+	_, f3 := r.SqrtRatioI(&a.fe, &a.fe)
+	ck.val("SqrtRatioI/alias(u=v)", &r, wantSame, bReduced, cas)
+	x = a.fe
+	_, f4 := x.SqrtRatioI(&x, &x)
+	ck.val("SqrtRatioI/alias(fe=u=v)", &x, wantSame, bReduced, cas)
+	if f3 != 1 || f4 != 1 {
+		w.Fail("SqrtRatioI/alias-flag", fmt.Sprintf("SqrtRatioI(x, x) flags %d, %d, want 1", f3, f4), cas())
+	}
 }
 
 // sqrtCase checks SqrtRatioI(u, v) against the documented contract:
@@ -863,7 +1115,7 @@ func sqrtCase(c chk, ufe, vfe *field.Element, u, v *big.Int, cas func() interfac
 	s := c.s
 	var r field.Element
 	_, flag := r.SqrtRatioI(ufe, vfe)
-	l := field.VerifLimbs(&r)
+	l := field.VerifC04Limbs(&r)
 	rv := s.modP(s.limbInt(l, new(big.Int)))
 	c.val("SqrtRatioI/repr", &r, rv, bReduced, cas)
 	var wantFlag int
